@@ -108,6 +108,23 @@ namespace nmtools::index
                 return return_t{};
             }
 
+            // numpy: repeated axis in source / destination is an error
+            auto has_duplicate = [](const auto& array) {
+                auto found = false;
+                for (size_t i=0; (!found && i<len(array)); i++) {
+                    for (size_t j=i+1; (!found && j<len(array)); j++) {
+                        if (at(array,i)==at(array,j)) {
+                            found = true;
+                        }
+                    }
+                }
+                return found;
+            };
+            if (has_duplicate(*src) || has_duplicate(*dst)) {
+                valid = false;
+                return return_t{};
+            }
+
             auto in = [](auto v, const auto& array) {
                 auto found = false;
                 for (size_t i=0; (!found && i<len(array)); i++) {
